@@ -28,6 +28,60 @@ MAIN_CFGS = [("single", dict(cloud=False, dist=False, clustered=False)),
              ("cloud+clustered", dict(cloud=True, dist=True, clustered=True))]
 
 
+# ---------------------------------------------------------------- error values for injected failures
+# realistic ClickHouse server exceptions ("ch:<code>:<name>:<message>" -> *proto.Exception) and driver/network
+# errors ("raw:<text>"); the model treats every failed call alike, so any code that reacts to one of these
+# texts/codes by carrying on shows up in the observed call log
+ERR_POOL = [
+    "ch:159:DB::Exception:Watching task /clickhouse/task_queue/ddl/query-0000000042 is executing longer than distributed_ddl_task_timeout (=180) seconds. "
+    "There are 1 unfinished hosts (0 of them are currently active), they are going to execute the query in background",
+    "ch:57:DB::Exception:Table qdb18.time_series already exists. (TABLE_ALREADY_EXISTS)",
+    "ch:60:DB::Exception:Table qdb18.time_series does not exist. (UNKNOWN_TABLE)",
+    "ch:81:DB::Exception:Database qdb18 does not exist. (UNKNOWN_DATABASE)",
+    "ch:44:DB::Exception:Cannot add column type: column with this name already exists. (ILLEGAL_COLUMN)",
+    "ch:253:DB::Exception:Replica /clickhouse/tables/01/time_series/replicas/r1 already exists. (REPLICA_ALREADY_EXISTS)",
+    "ch:999:DB::Exception:Coordination::Exception: Session expired (Session expired). (KEEPER_EXCEPTION)",
+    "ch:241:DB::Exception:Memory limit (total) exceeded. (MEMORY_LIMIT_EXCEEDED)",
+    "raw:read tcp 127.0.0.1:51234->127.0.0.1:9000: read: connection reset by peer",
+    "raw:write tcp 127.0.0.1:51234->127.0.0.1:9000: write: broken pipe",
+    "raw:EOF",
+    "raw:driver: bad connection",
+    "raw:context deadline exceeded",
+    "raw:clickhouse: acquire conn timeout. you can increase the number of max open conn or the dial timeout",
+]
+LIT = re.compile(r'strings\.(?:Contains|HasPrefix|HasSuffix|EqualFold|Index)\(\s*[^,()]*(?:\([^()]*\))?[^,()]*,\s*"((?:[^"\\]|\\.)*)"')
+
+
+def source_error_texts(repo):
+    """every string literal that code under ctrl/ (and main.go) compares a text with via strings.Contains & co:
+    an error carrying exactly that text is injected as well (so a newly added special case is exercised)"""
+    found = []
+    files = glob.glob(os.path.join(repo, "ctrl", "**", "*.go"), recursive=True) + [os.path.join(repo, "main.go")]
+    for p in sorted(files):
+        if p.endswith("_test.go") or not os.path.exists(p):
+            continue
+        src = open(p, errors="replace").read()
+        if "rr" not in src:
+            continue
+        for m in LIT.finditer(src):
+            try:
+                lit = json.loads('"' + m.group(1) + '"')
+            except ValueError:
+                continue
+            if len(lit) >= 4 and lit not in found:
+                found.append(lit)
+    return found
+
+
+def error_pool(repo):
+    pool = list(ERR_POOL)
+    for lit in source_error_texts(repo):
+        if not any(lit in e for e in pool):
+            pool.append("raw:" + lit)
+            pool.append("ch:1000:DB::Exception:" + lit)
+    return pool
+
+
 def load_translator():
     p = os.path.join(VERIF, "translate", "gen_scripts")
     loader = importlib.machinery.SourceFileLoader("gen_scripts_c18", p)
@@ -138,7 +192,18 @@ def coq_log(log, sids, cloud, ids_of):
 def coq_os(f):
     if not f:
         return "[]"
-    return "fault_at %d%%nat %s" % (f["n"], "OBefore" if f["kind"] == "before" else "OAfter")
+    pts = sorted([(f["n"], f["kind"])] + [(g["n"], g["kind"]) for g in f.get("also") or []])
+    out, pos = [], 0
+    for n, kind in pts:
+        if n < pos:
+            continue
+        if f.get("dead_from") and n >= f["dead_from"]:
+            break
+        out.append("fault_at %d%%nat %s" % (n - pos, "OBefore" if kind == "before" else "OAfter"))
+        pos = n + 1
+    if f.get("dead_from"):
+        out.append("repeat OOk %d%%nat ++ repeat OBefore 400%%nat" % max(0, f["dead_from"] - pos))
+    return " ++ ".join(out)
 
 
 def coq_strs(xs):
@@ -219,7 +284,7 @@ def first_bad(ck):
             i, coq_bool(c["cloud"]), coq_cfg(c), i))
     txt = ("From Coq Require Import List String NArith ZArith Bool.\nFrom Qryn Require Import model.Migrate gen.GenScripts.\n"
            "Import ListNotations.\n" + "\n".join(lines) + "\n")
-    rc, out = ck.coq_eval("C18_first_bad", txt)
+    rc, out = ck.coq_eval("C18_%s_%d_first_bad" % (vcheck.repo_tag(), os.getpid()), txt)
     res = []
     if rc != 0:
         return res, out
@@ -346,15 +411,24 @@ def run(ck):
             if rc == 0:
                 cases += take(w_out, cls="witness")
 
+    pool = error_pool(vcheck.REPO)
+    pool_file = os.path.join(ck.work, "errtexts.json")
+    json.dump(pool, open(pool_file, "w"))
+    ck.extra["error_values"] = {"count": len(pool), "from_source": source_error_texts(vcheck.REPO)}
+    tg_out = os.path.join(ck.work, "targeted.jsonl")
+    rc, out = ck.go_run("migrate", ["--seed", ck.seed, "--errtexts", pool_file, "--targeted", ck.n(1, 3), "--out", tg_out])
+    if ck.obligation("harness migrate ran (failures with each error value)", rc == 0, out[-1500:]):
+        cases += take(tg_out)
+
     gen_out = os.path.join(ck.work, "gen.jsonl")
     n = ck.n(200, 3000)
-    rc, out = ck.go_run("migrate", ["--seed", ck.seed, "--n", n, "--out", gen_out])
+    rc, out = ck.go_run("migrate", ["--seed", ck.seed, "--n", n, "--errtexts", pool_file, "--out", gen_out])
     if not ck.obligation("harness migrate ran (generated cases)", rc == 0, out[-1500:]):
         return
     cases += take(gen_out)
     if not ck.quick():
         ex_out = os.path.join(ck.work, "exhaustive.jsonl")
-        rc, out = ck.go_run("migrate", ["--exhaustive", "--out", ex_out], timeout=1800)
+        rc, out = ck.go_run("migrate", ["--exhaustive", "--errtexts", pool_file, "--out", ex_out], timeout=3000)
         if ck.obligation("harness migrate ran (exhaustive first-start failures)", rc == 0, out[-1500:]):
             cases += take(ex_out)
 
@@ -374,7 +448,8 @@ def run(ck):
     mism, viol = [], []
     shard = 400
     for k in range(0, len(cases), shard):
-        m, v, out = eval_cases(ck, "C18_cases_%d" % (k // shard), cases[k:k + shard], sids)
+        # coq/cases is shared by concurrent runs (other VERIF_REPO): the file name carries repository tag and pid
+        m, v, out = eval_cases(ck, "C18_%s_%d_cases_%d" % (vcheck.repo_tag(), os.getpid(), k // shard), cases[k:k + shard], sids)
         if m is None:
             ck.obligation("cases evaluated inside Coq", False, out[-1500:])
             return
@@ -398,7 +473,7 @@ def run(ck):
         cid, code, slug = min(new_viol, key=lambda x: (len(byid[x[0]]["faults"] or []), sum(len(r["log"]) for r in byid[x[0]]["runs"])))
         c = byid[cid]
         ck.violation({"property": "C18", "kind": SPEC_CODE.get(code, "spec violation %d" % code), "slug": slug, "cfg": c["cfg"],
-                      "faults": c["faults"], "why": c.get("why", ""),
+                      "mode": c.get("class", ""), "faults": c["faults"], "failure_points": failure_points(c, sids, gen), "why": c.get("why", ""),
                       "runs": [{"fault": r.get("fault"), "returned_nil": r["ok"], "err": r.get("err", ""), "calls": len(r["log"]),
                                 "last_calls": r["log"][-3:]} for r in c["runs"]],
                       "final_versions": c["final"]["vers"],
@@ -436,6 +511,35 @@ def run(ck):
     ck.extra["distinct_failure_points_hit"] = len(points)
     ck.add_samples([{"cfg": c["cfg"], "faults": c["faults"], "returned_nil": [r["ok"] for r in c["runs"]],
                      "calls": [len(r["log"]) for r in c["runs"]], "final_versions": c["final"]["vers"]} for c in cases if c["faults"]][:4])
+
+
+def failure_points(c, sids, gen):
+    """(stream, statement index, call kind, failure kind, error value) of every injected failure of a case"""
+    out = []
+    for r in c["runs"]:
+        f = r.get("fault")
+        if not f:
+            continue
+        for g in [f] + list(f.get("also") or []):
+            if g["n"] >= len(r["log"]):
+                continue
+            e = r["log"][g["n"]]
+            cur = None
+            for x in r["log"][:g["n"] + 1]:
+                if x["t"] == "rd":
+                    cur = x.get("k")
+            pt = {"call": g["n"], "kind": g["kind"], "error": g.get("err") or "plain error value", "call_type": e["t"],
+                  "stream": STREAM_FILE.get(cur if e["t"] == "s" else e.get("k", cur), "-"), "result": e["r"]}
+            if e["t"] == "s":
+                sid = sids.of(e["stmt"], c["cfg"]["cloud"])
+                for s in gen["streams"]:
+                    if s["k"] == cur and sid in s["ids"]:
+                        pt["statement_index"] = s["ids"].index(sid)
+                pt["statement"] = e["stmt"][:3]
+            elif e["t"] == "iv":
+                pt["version"] = e.get("v", 0)
+            out.append(pt)
+    return out
 
 
 def violation_slug(c, code, sids, gen):
